@@ -283,6 +283,12 @@ func checkDiagPackages(sc *bw.Scenario, w *world, res *vresult, out *simkit.Outc
 			if len(sigs) != len(es) {
 				continue // the count oracle reports that
 			}
+			if sink == "add:" && multiTask(r.va) {
+				// callers return in an order of their own: with several of them the k-th
+				// diagnostic handed back need not be the k-th raised. The deliveries are paired
+				// with the emissions by package where that is possible, in order otherwise.
+				es = pairByPackage(es, sigs, w, sc, res)
+			}
 			for k, e := range es {
 				f := strings.Split(sigs[k], "|")
 				if len(f) < 6 {
@@ -1021,4 +1027,54 @@ func physOf(p string) string {
 		return q
 	}
 	return p
+}
+
+// multiTask: do several client tasks issue this variant's Add calls?
+func multiTask(va *bw.Variant) bool {
+	for _, t := range va.Tasks {
+		if t != 0 {
+			return true
+		}
+	}
+	return false
+}
+
+// pairByPackage reorders the emissions so that, as far as possible, the k-th one is about
+// the package the k-th delivered file name lies in (a matching of two multisets); what
+// cannot be matched keeps its place and is reported by the caller.
+func pairByPackage(es []emitted, sigs []string, w *world, sc *bw.Scenario, res *vresult) []emitted {
+	out := make([]emitted, len(es))
+	used := make([]bool, len(es))
+	filled := make([]bool, len(es))
+	for k, sg := range sigs {
+		f := strings.Split(sg, "|")
+		if len(f) < 6 {
+			continue
+		}
+		pi, _, ok := w.splitSource(f[3])
+		if !ok {
+			continue
+		}
+		dir, err := pkgDirOf(res.bundle, &sc.Pkgs[pi])
+		if err != nil {
+			continue
+		}
+		for j := range es {
+			if !used[j] && es[j].Dir == filepath.Base(dir) {
+				out[k], used[j], filled[k] = es[j], true, true
+				break
+			}
+		}
+	}
+	j := 0
+	for k := range out {
+		if filled[k] {
+			continue
+		}
+		for used[j] {
+			j++
+		}
+		out[k], used[j] = es[j], true
+	}
+	return out
 }
